@@ -561,8 +561,12 @@ class Engine:
             return (it.length, lambda i, it=it: list_get(it, i))
         if isinstance(it, VRange):
             a, b, c = it.start, it.stop, it.step
-            if not (z3.is_int_value(z3.simplify(c)) and z3.simplify(c).as_long() == 1):
-                raise Unsupported('range with step != 1')
+            cs = z3.simplify(c)
+            if z3.is_int_value(cs) and cs.as_long() == -1:
+                n = z3.If(a > b, a - b, 0)
+                return (n, lambda i: VInt(a - i))
+            if not (z3.is_int_value(cs) and cs.as_long() == 1):
+                raise Unsupported('range with step not in {1, -1}')
             n = z3.If(b > a, b - a, 0)
             return (n, lambda i: VInt(a + i))
         if isinstance(it, VTuple):
